@@ -171,6 +171,7 @@ Section Correct.
   Variable hist : Qc -> list Qc.
   Variable pos : nat -> nat.
   Variable par : nat -> Qc.
+  Variable dpar : nat -> Qc.              (* values of the delay parameters (DPar p) *)
 
   Lemma t_emit_true md t : dt_fmt_exact md = true -> t_emit md t = t_true md t.
   Proof. destruct md as [|dt de]; cbn; [reflexivity|]. intros H. apply Qc_eqb_true in H. now subst. Qed.
@@ -178,7 +179,7 @@ Section Correct.
   (* the compiled factor, evaluated with ANY later table, has the value of the source factor *)
   Definition fac_ok (tb' : table) (f : factor) (c : cfactor) : Prop :=
     forall tbF md t y, ext tb' tbF -> dt_fmt_exact md = true ->
-      cfval hist pos par tbF md t y c = fval hist pos par md t y f.
+      cfval hist pos par dpar tbF md t y c = fval hist pos par dpar md t y f.
 
   Lemma comp_factor_ok tb f tb' c : comp_factor tb f = (tb', c) ->
     pass_ok tb tb' (fkeys [f]) /\ fac_ok tb' f c.
@@ -197,7 +198,7 @@ Section Correct.
   Lemma comp_factors_ok : forall fs tb tb' cs, comp_factors tb fs = (tb', cs) ->
     pass_ok tb tb' (fkeys fs) /\
     forall tbF md t y, ext tb' tbF -> dt_fmt_exact md = true ->
-      map (cfval hist pos par tbF md t y) cs = map (fval hist pos par md t y) fs.
+      map (cfval hist pos par dpar tbF md t y) cs = map (fval hist pos par dpar md t y) fs.
   Proof.
     induction fs as [|f fs IH]; intros tb tb' cs H; cbn [comp_factors] in H.
     - injection H as <- <-. split; [apply pass_ok_refl|reflexivity].
@@ -216,7 +217,7 @@ Section Correct.
   Lemma comp_rhs_ok : forall r tb tb' cr, comp_rhs tb r = (tb', cr) ->
     pass_ok tb tb' (rkeys r) /\
     forall tbF md t y, ext tb' tbF -> dt_fmt_exact md = true ->
-      map (cterm_val hist pos par tbF md t y) cr = map (term_val hist pos par md t y) r.
+      map (cterm_val hist pos par dpar tbF md t y) cr = map (term_val hist pos par dpar md t y) r.
   Proof.
     induction r as [|[c fs] r IH]; intros tb tb' cr H; cbn [comp_rhs] in H.
     - injection H as <- <-. split; [apply pass_ok_refl|reflexivity].
@@ -233,7 +234,7 @@ Section Correct.
   Lemma comp_model_ok : forall m tb tb' cm, comp_model tb m = (tb', cm) ->
     pass_ok tb tb' (past_keys m) /\
     forall tbF md t y, ext tb' tbF -> dt_fmt_exact md = true ->
-      map (crhs_val hist pos par tbF md t y) cm = map (rhs_val hist pos par md t y) m.
+      map (crhs_val hist pos par dpar tbF md t y) cm = map (rhs_val hist pos par dpar md t y) m.
   Proof.
     induction m as [|r m IH]; intros tb tb' cm H; cbn [comp_model] in H.
     - injection H as <- <-. split; [apply pass_ok_refl|reflexivity].
@@ -249,7 +250,7 @@ Section Correct.
 
   (* headline: for EVERY history function, state layout, parameter values and model, every delayed term of the compiled
      function is component pos(x) of hist(t_time - tau): Impl = Spec, no guard *)
-  Theorem dde_full m md t y : impl_eval hist pos par m md t y = spec_eval hist pos par m md t y.
+  Theorem dde_full m md t y : impl_eval hist pos par dpar m md t y = spec_eval hist pos par dpar m md t y.
   Proof.
     unfold impl_eval, spec_eval, spec_eval_e, compile.
     destruct (comp_model [] m) as [tb cm] eqn:C.
@@ -260,7 +261,7 @@ Section Correct.
   (* the code before D38/D39 met the specification only inside two guards *)
   Theorem before_fix_refines m md t y :
     past_terms_printable m = true -> dt_fmt_exact md = true ->
-    impl_eval_before_fix hist pos par m md t y = Some (spec_eval_e hist pos par m md t y).
+    impl_eval_before_fix hist pos par dpar m md t y = Some (spec_eval_e hist pos par dpar m md t y).
   Proof.
     intros G1 G2. unfold impl_eval_before_fix, compile. rewrite G1.
     destruct (comp_model [] m) as [tb cm] eqn:C.
@@ -272,7 +273,7 @@ Section Correct.
      nth (pos x) (hist (t_time - d)) by its emitted line *)
   Theorem past_occurrence m tb cm x d : compile m = (tb, cm) -> In (x, d) (past_keys m) ->
     exists k, slot tb x k = Some d /\
-      forall md t, hist_val hist pos par tb md t x k = nth (pos x) (hist (t_emit md t - dval par d)) 0.
+      forall md t, hist_val hist pos dpar tb md t x k = nth (pos x) (hist (t_emit md t - dval dpar d)) 0.
   Proof.
     intros C Hin. destruct (comp_model_ok m [] tb cm C) as ((_ & _ & Cov & _) & _).
     destruct (Cov x d Hin) as [k Hk]. exists k. split; [exact Hk|]. intros md t. unfold hist_val. now rewrite Hk.
@@ -287,7 +288,7 @@ Theorem alloc_bijective m tb cm : compile m = (tb, cm) ->
   (forall x1 k1 d1 x2 k2 d2, slot tb x1 k1 = Some d1 -> slot tb x2 k2 = Some d2 ->
      ((x1, k1) = (x2, k2) <-> (x1, d1) = (x2, d2))).
 Proof.
-  intros C. destruct (comp_model_ok (fun _ => []) (fun x => x) (fun _ => 0) m [] tb cm C) as ((_ & W & Cov & Sp) & _).
+  intros C. destruct (comp_model_ok (fun _ => []) (fun x => x) (fun _ => 0) (fun _ => 0) m [] tb cm C) as ((_ & W & Cov & Sp) & _).
   split; [exact Cov|]. split.
   - intros x k d H. destruct (Sp x k d H) as [H'|H']; [|exact H']. unfold slot in H'. cbn in H'. discriminate.
   - intros. apply slot_injective with (tb := tb); auto. apply W, WFt_nil.
@@ -320,9 +321,28 @@ Theorem edges_refine step es base : edge_delay_above_step step es = true ->
   add_edges (edge_factor_impl step es) es base = add_edges edge_factor_spec es base.
 Proof. intros H2. apply add_edges_ext. intros e He. now apply edge_factor_ok. Qed.
 
+(* ---------- vector-valued variables ---------- *)
+Lemma spec_eval_dpar_ext hist pos par d1 d2 m md t y : (forall p, d1 p = d2 p) ->
+  spec_eval hist pos par d1 m md t y = spec_eval hist pos par d2 m md t y.
+Proof.
+  intros H. unfold spec_eval, spec_eval_e. apply map_ext. intros r. unfold rhs_val. f_equal. apply map_ext. intros cf.
+  unfold term_val. f_equal. f_equal. apply map_ext. intros f. destruct f; cbn [fval]; try reflexivity.
+  unfold past_val. destruct d; cbn [dval]; [reflexivity|]. now rewrite H.
+Qed.
+
+(* every unit of a vector-valued delayed variable reads its own component of hist(t_time - tau) — provided delay
+   parameters have the same value on all units *)
+Theorem vec_refines hist start par dpar n m md t y :
+  (forall p u, (u < n)%nat -> dpar p u = dpar p 0%nat) ->
+  vimpl_eval hist start par dpar n m md t y = vspec_eval hist start par dpar n m md t y.
+Proof.
+  intros H. unfold vimpl_eval, vspec_eval. apply map_ext_in. intros u Hu. apply in_seq in Hu.
+  rewrite dde_full. apply spec_eval_dpar_ext. intros p. symmetry. apply H. lia.
+Qed.
+
 (* ---------- the Euler loop with DDEHistory is the method-of-steps recurrence ---------- *)
-Lemma spec_eval_ext h1 h2 pos par m md t y : (forall s, h1 s = h2 s) ->
-  spec_eval h1 pos par m md t y = spec_eval h2 pos par m md t y.
+Lemma spec_eval_ext h1 h2 pos par dpar m md t y : (forall s, h1 s = h2 s) ->
+  spec_eval h1 pos par dpar m md t y = spec_eval h2 pos par dpar m md t y.
 Proof.
   intros H. unfold spec_eval, spec_eval_e. apply map_ext. intros r. unfold rhs_val. f_equal. apply map_ext. intros cf.
   unfold term_val. f_equal. f_equal. apply map_ext. intros f. destruct f; cbn [fval]; try reflexivity.
@@ -355,9 +375,14 @@ Proof.
     apply (IH t Hrest). right. exact Hl.
 Qed.
 
+Lemma step_y_ext sc dt F1 F2 y : (forall z, F1 z = F2 z) -> step_y sc dt F1 y = step_y sc dt F2 y.
+Proof. intros H. destruct sc; cbn [step_y]; now rewrite !H. Qed.
+
 Section RunProof.
+  Variable sc : scheme.
   Variable pos : nat -> nat.
   Variable par : nat -> Qc.
+  Variable dpar : nat -> Qc.              (* values of the delay parameters (DPar p) *)
   Variable m : model.
   Variable dt : Qc.
   Variable junk : nat -> list row.
@@ -368,17 +393,16 @@ Section RunProof.
     Inv h /\ growable h = true /\ combine (ts h) (recorded h) = recs /\ incr (ts h) /\
     ts h <> [] /\ last (ts h) 0 = qn i * dt.
 
-  Lemma euler_refines : forall n i y h recs, RInv h recs i ->
-    euler_impl pos par m dt junk n i y h = Some (euler_spec pos par m dt n i y recs).
+  Lemma loop_refines : forall n i y h recs, RInv h recs i ->
+    loop_impl sc pos par dpar m dt junk n i y h = Some (loop_spec sc pos par dpar m dt n i y recs).
   Proof.
     induction n as [|n IH]; intros i y h recs (HI & Hgr & Hrec & Hinc & Hne & Hlast); [reflexivity|].
-    cbn [euler_impl euler_spec].
-    rewrite (dde_full (query h) pos par m (Fixed dt) (qn i) y).
-    assert (E : spec_eval (query h) pos par m (Fixed dt) (qn i) y =
-                spec_eval (interp recs) pos par m (Fixed dt) (qn i) y).
-    { apply spec_eval_ext. intros s. rewrite <- Hrec. now apply query_is_interp. }
-    rewrite E. set (f := spec_eval (interp recs) pos par m (Fixed dt) (qn i) y).
-    set (y' := vadd y (vscale dt f)). set (t' := qn (S i) * dt).
+    cbn [loop_impl loop_spec].
+    assert (E : step_y sc dt (impl_eval (query h) pos par dpar m (Fixed dt) (qn i)) y =
+                step_y sc dt (spec_eval (interp recs) pos par dpar m (Fixed dt) (qn i)) y).
+    { apply step_y_ext. intros z. rewrite dde_full. apply spec_eval_ext. intros s. rewrite <- Hrec. now apply query_is_interp. }
+    rewrite E.
+    set (y' := step_y sc dt (spec_eval (interp recs) pos par dpar m (Fixed dt) (qn i)) y). set (t' := qn (S i) * dt).
     destruct (update h (junk i) t' y') as [h'|] eqn:U.
     - destruct (update_inv h (junk i) t' y' h' HI U) as (HI' & Hr' & Ht' & Hg' & _).
       rewrite (IH (S i) y' h' (recs ++ [(t', y')])); [reflexivity|].
@@ -392,9 +416,9 @@ Section RunProof.
   Qed.
 
   Theorem run_refines cap n y0 :
-    run_impl pos par m dt junk cap n y0 = Some (run_spec pos par m dt n y0).
+    run_impl sc pos par dpar m dt junk cap n y0 = Some (run_spec sc pos par dpar m dt n y0).
   Proof.
-    unfold run_impl, run_spec. apply euler_refines.
+    unfold run_impl, run_spec. apply loop_refines.
     destruct (init_inv y0 0 cap true (junk 0)) as (HI & Hrec & _).
     unfold RInv. split; [exact HI|]. split; [reflexivity|]. split; [|split; [|split]].
     - rewrite Hrec. reflexivity.
@@ -405,36 +429,78 @@ Section RunProof.
 End RunProof.
 
 (* the history the recurrence sees: records (k*dt, y_k), hence y0 before the start and the interpolant afterwards *)
-Fixpoint spec_recs (pos : nat -> nat) (par : nat -> Qc) (m : model) (dt : Qc) (n i : nat) (y : row)
-  (recs : list (Qc * row)) : list (Qc * row) :=
-  match n with
-  | O => recs
-  | S n' =>
-      let f := spec_eval (interp recs) pos par m (Fixed dt) (qn i) y in
-      let y' := vadd y (vscale dt f) in
-      spec_recs pos par m dt n' (S i) y' (recs ++ [(qn (S i) * dt, y')])
-  end.
-
-Lemma spec_recs_prefix pos par m dt : forall n i y recs, exists s, spec_recs pos par m dt n i y recs = recs ++ s.
+Lemma spec_recs_prefix sc pos par dpar m dt : forall n i y recs, exists s, spec_recs sc pos par dpar m dt n i y recs = recs ++ s.
 Proof.
   induction n as [|n IH]; intros i y recs; cbn [spec_recs]; [exists []; now rewrite app_nil_r|].
-  destruct (IH (S i) (vadd y (vscale dt (spec_eval (interp recs) pos par m (Fixed dt) (qn i) y)))
-              (recs ++ [(qn (S i) * dt, vadd y (vscale dt (spec_eval (interp recs) pos par m (Fixed dt) (qn i) y)))])) as [s Hs].
+  match goal with |- exists s, spec_recs _ _ _ _ _ _ _ _ ?y1 (recs ++ ?r) = _ => destruct (IH (S i) y1 (recs ++ r)) as [s Hs] end.
   rewrite Hs, <- app_assoc. eauto.
 Qed.
 
-Theorem prehistory_constant pos par m dt n y0 t : t <= 0 ->
-  interp (spec_recs pos par m dt n 0 y0 [(0, y0)]) t = y0.
+Theorem prehistory_constant sc pos par dpar m dt n y0 t : t <= 0 ->
+  interp (spec_recs sc pos par dpar m dt n 0 y0 [(0, y0)]) t = y0.
 Proof.
-  intros H. destruct (spec_recs_prefix pos par m dt n 0 y0 [(0, y0)]) as [s ->].
+  intros H. destruct (spec_recs_prefix sc pos par dpar m dt n 0 y0 [(0, y0)]) as [s ->].
   cbn [app interp]. apply Qcleb_true in H. now rewrite H.
 Qed.
 
-Lemma spec_recs_times pos par m dt : forall n i y recs,
-  times (spec_recs pos par m dt n i y recs) = times recs ++ map (fun k => qn k * dt) (seq (S i) n).
+Lemma spec_recs_times sc pos par dpar m dt : forall n i y recs,
+  times (spec_recs sc pos par dpar m dt n i y recs) = times recs ++ map (fun k => qn k * dt) (seq (S i) n).
 Proof.
   induction n as [|n IH]; intros i y recs; cbn [spec_recs seq map]; [now rewrite app_nil_r|].
   rewrite IH. unfold times. rewrite map_app, <- app_assoc. reflexivity.
+Qed.
+
+(* the rows DDEHistory.__call__ reads: the model's query is row 0 / the last row / the interpolation of rows idx, idx+1
+   selected by qcase on the update times *)
+Theorem query_by_qcase h t :
+  query h t = match qcase (ts h) t with
+              | (0%nat, _) => nth 0 (buf h) []
+              | (1%nat, _) => nth (n h - 1) (buf h) []
+              | (_, idx) => lerp (nth idx (ts h) 0) (nth idx (buf h) []) (nth (S idx) (ts h) 0) (nth (S idx) (buf h) []) t
+              end.
+Proof.
+  unfold query, qcase. destruct (Qcleb t (hd 0 (ts h))); [reflexivity|].
+  destruct (Qcleb (last (ts h) 0) t); reflexivity.
+Qed.
+
+(* bisect_right brackets t for ANY list: everything before the returned position is <= t, the element at it is > t.
+   Hence an interpolating lookup never divides by a zero-width interval, also when update times repeat. *)
+Lemma bisect_right_bracket : forall l t,
+  (forall i, (i < bisect_right l t)%nat -> nth i l 0 <= t) /\
+  ((bisect_right l t < length l)%nat -> t < nth (bisect_right l t) l 0).
+Proof.
+  induction l as [|x l IH]; intros t; cbn [bisect_right length].
+  - split; intros; lia.
+  - destruct (Qcleb x t) eqn:E.
+    + destruct (IH t) as [H1 H2]. split.
+      * intros [|i] Hi; cbn [nth]; [now apply Qcleb_true|]. apply H1. lia.
+      * intros Hlt. cbn [nth]. apply H2. lia.
+    + split; [intros i Hi; lia|]. intros _. cbn [nth]. now apply Qcleb_false.
+Qed.
+
+Lemma last_in {A} (l : list A) d : l <> [] -> In (last l d) l.
+Proof.
+  induction l as [|a [|b l] IH]; intros H; [congruence|now left|]. right. apply IH. discriminate.
+Qed.
+
+Theorem qcase_between_bracket tsl t idx : qcase tsl t = (2%nat, idx) ->
+  nth idx tsl 0 <= t /\ t < nth (S idx) tsl 0.
+Proof.
+  unfold qcase. destruct (Qcleb t (hd 0 tsl)) eqn:E1; [discriminate|].
+  destruct (Qcleb (last tsl 0) t) eqn:E2; [discriminate|]. intros [= <-].
+  apply Qcleb_false in E1. apply Qcleb_false in E2.
+  destruct (bisect_right_bracket tsl t) as [H1 H2].
+  assert (Hne : tsl <> []) by (intros ->; cbn in *; eapply Qclt_not_le; [eapply Qclt_trans; [exact E1|exact E2]|apply Qcle_refl]).
+  assert (Hk1 : (1 <= bisect_right tsl t)%nat).
+  { destruct tsl as [|x l]; [congruence|]. cbn [hd] in E1. cbn [bisect_right].
+    apply Qclt_le_weak in E1. apply Qcleb_true in E1. rewrite E1. lia. }
+  assert (Hk2 : (bisect_right tsl t < length tsl)%nat).
+  { destruct (Nat.lt_ge_cases (bisect_right tsl t) (length tsl)) as [H|H]; [exact H|]. exfalso.
+    destruct (In_nth tsl (last tsl 0) 0 (last_in tsl 0 Hne)) as (i & Hi & Hn).
+    assert (nth i tsl 0 <= t) by (apply H1; lia). rewrite Hn in H0. eapply Qclt_not_le; eauto. }
+  split.
+  - apply H1. lia.
+  - replace (S (bisect_right tsl t - 1)) with (bisect_right tsl t) by lia. now apply H2.
 Qed.
 
 (* ---------- helpers for the refutation witnesses ---------- *)
